@@ -278,8 +278,19 @@ func shapeApplyX(o *psOutcome, pre *shapeHeap, params map[string]string, recv st
 	if len(o.Rets) == 1 {
 		v, ok := e.node(o.Rets[0])
 		if !ok {
-			// non-node results (Contains etc.) are not shape results
+			// a boolean or numeric answer of a query (Contains, Len, IsEmpty): evaluated on the shape
+			t := o.Rets[0]
 			v = "?"
+			if t == "true" || t == "false" {
+				v = t
+			} else if n, okN := e.num(t); okN {
+				v = fmt.Sprint(n)
+			} else {
+				atom, neg := splitNeg(t)
+				if b, known := e.pred(atom); known {
+					v = fmt.Sprint(b != neg)
+				}
+			}
 		}
 		ret = orNil(v)
 	}
@@ -327,6 +338,8 @@ func ruleDequeShape(cx *Ctx) {
 	ops := []opDef{
 		{"PushBack", []string{"fresh"}}, {"PushFront", []string{"fresh"}}, {"Delete", []string{"n"}}, {"PopFront", nil},
 		{"MoveToBack", []string{"member"}}, {"MoveToFront", []string{"member"}}, {"UpdateNode", []string{"fresh", "old"}},
+		// queries: the list is unchanged and the answer is the specified one
+		{"Contains", []string{"n"}}, {"NotContains", []string{"n"}}, {"Head", nil}, {"Tail", nil}, {"Len", nil}, {"IsEmpty", nil},
 	}
 	names := []string{"a", "b", "c", "d", "e"}
 	for _, op := range ops {
@@ -375,9 +388,9 @@ func ruleDequeShape(cx *Ctx) {
 				switch op.name {
 				case "PushBack", "PushFront":
 					pls = append(pls, placement{map[string]string{"param:" + pname(bparam(fn, 1)): "x"}, []string{"x"}, "x detached"})
-				case "PopFront":
+				case "PopFront", "Head", "Tail", "Len", "IsEmpty":
 					pls = append(pls, placement{map[string]string{}, nil, ""})
-				case "Delete":
+				case "Delete", "Contains", "NotContains":
 					for _, m := range seq {
 						pls = append(pls, placement{map[string]string{"param:" + pname(bparam(fn, 1)): m}, nil, "n=" + m})
 					}
@@ -442,6 +455,30 @@ func ruleDequeShape(cx *Ctx) {
 						} else {
 							wantRet = "nil"
 						}
+					case "Contains":
+						want = seq
+						wantRet = fmt.Sprint(inSeq(seq, arg(1)))
+					case "NotContains":
+						want = seq
+						wantRet = fmt.Sprint(!inSeq(seq, arg(1)))
+					case "Head":
+						want = seq
+						wantRet = "nil"
+						if len(seq) > 0 {
+							wantRet = seq[0]
+						}
+					case "Tail":
+						want = seq
+						wantRet = "nil"
+						if len(seq) > 0 {
+							wantRet = seq[len(seq)-1]
+						}
+					case "Len":
+						want = seq
+						wantRet = fmt.Sprint(len(seq))
+					case "IsEmpty":
+						want = seq
+						wantRet = fmt.Sprint(len(seq) == 0)
 					case "MoveToBack":
 						want = append(without(seq, arg(1)), arg(1))
 					case "MoveToFront":
